@@ -2011,6 +2011,21 @@ PROGRAMS_C03 = [
 ]
 
 
+PROGRAMS_C01 = [
+    # one expression node evaluated several times: every evaluation of a display builds NEW containers
+    ("tuple-of-lists-in-function", "def f():\n    return ([0], [1])\na = f()\na[0].append(9)\nb = f()\nr = [a, b, a[0] is b[0]]\n"),
+    ("tuple-of-lists-in-loop", "r = []\nfor i in range(3):\n    t = ('k', [1, 2])\n    t[1].append(i)\n    r.append(t)\n"),
+    ("list-of-lists-in-loop", "r = []\nfor i in range(3):\n    t = [[], [0]]\n    t[0].append(i)\n    r.append(t)\n"),
+    ("nested-tuple-literal-identity", "def f():\n    return (1, (2, [3]))\nx = f()\ny = f()\nx[1][1].append(4)\nr = [x, y]\n"),
+    ("dict-display-in-function", "def f():\n    return {'a': [1], 'b': (2, [3])}\nx = f()\nx['a'].append(5)\nx['b'][1].append(6)\nr = [x, f()]\n"),
+    ("set-and-list-display-in-comprehension", "r = [([0], {1}) for _ in range(2)]\nr[0][0].append(7)\nr[0][1].add(8)\n"),
+    ("default-vs-body-display", "def f(d=([0],)):\n    e = ([0],)\n    d[0].append(1)\n    e[0].append(1)\n    return [d, e]\nf()\nr = f()\n"),
+    ("fstring-and-slice-reevaluated", "r = []\nfor i in range(3):\n    s = [10, 20, 30, 40][i:]\n    r.append(f'{i}:{s}')\n"),
+    ("augmented-on-fresh-display", "r = []\nfor i in range(2):\n    t = ([1],)\n    t[0].extend([i])\n    u = [0] * 2\n    u[i] += 5\n    r.append((t, u))\n"),
+    ("lambda-returning-display", "g = lambda: ('x', [1])\na = g()\na[1].append(2)\nr = [a, g()]\n"),
+]
+
+
 PROGRAMS_C02 = [
     # containers changed by the loop that walks them: Python's for statement asks the live container for the next element
     ("for-worklist-grows", "todo = [1]\nseen = []\nfor x in todo:\n    seen.append(x)\n    if x < 4:\n        todo.append(x + 1)\nelse:\n    seen.append('else')\nr = seen\n"),
@@ -2034,7 +2049,7 @@ async def c03_programs_bounded(w):
     await boot_full()
     failures = []
     which = w.get("set", "C03")
-    programs = PROGRAMS_C02 if which == "C02" else PROGRAMS_C03
+    programs = {"C01": PROGRAMS_C01, "C02": PROGRAMS_C02}.get(which, PROGRAMS_C03)
     for label, src in programs:
         g = {"pyscript_compile": lambda f: f}
         err = None
@@ -2048,7 +2063,8 @@ async def c03_programs_bounded(w):
         if cpy != pys:
             failures.append({"signature": "program:" + label, "source": src, "cpython": cpy, "pyscript": pys})
     await shutdown()
-    unit = "loops over containers the body changes, nested exits" if which == "C02" else "closures / classes / decorators / scoping"
+    unit = {"C01": "expression nodes evaluated several times (displays build new containers each time)",
+            "C02": "loops over containers the body changes, nested exits"}.get(which, "closures / classes / decorators / scoping")
     return {"unit": unit, "method": "fixed programs vs CPython",
             "bound": f"{len(programs)} programs (nesting depth <= 3)", "cases": len(programs), "failures": failures,
             "reproduced": bool(failures)}
